@@ -512,16 +512,27 @@ fn profiles() -> Vec<(&'static str, String)> {
     v
 }
 
+fn cyclic_family_name(g: &Graphs) -> String {
+    format!("cyclic-graphs-{}x{}", g.n, g.ncons)
+}
+
 fn run_cyclic_graphs(g: &Graphs, rep: &mut Report) {
-    let total = g.size();
-    let profs = profiles();
-    if profs.is_empty() {
+    if profiles().is_empty() {
         rep.caps.push("no child binaries available: cyclic graphs not executed".into());
         return;
     }
     let mut acc = Acc::default();
-    acc.family = "cyclic-graphs".into();
-    let nw = workers() as u64;
+    acc.family = cyclic_family_name(g);
+    cyclic_range(g, 0, g.size(), &mut acc);
+    rep.family_sizes.push((cyclic_family_name(g), acc.evaluations));
+    rep.acc.merge(acc);
+}
+
+/// the graphs with a reachable cycle among the indices [from, to), each in child processes
+fn cyclic_range(g: &Graphs, from: u64, to: u64, acc: &mut Acc) {
+    let profs = profiles();
+    let total = to - from;
+    let nw = (workers() as u64).min(total.max(1));
     let chunk = (total + nw - 1) / nw;
     for (pname, bin) in &profs {
         for (sname, stack) in [("main-8MiB", 0usize), ("thread-2MiB", 2 << 20)] {
@@ -529,7 +540,7 @@ fn run_cyclic_graphs(g: &Graphs, rep: &mut Report) {
                 let hs: Vec<_> = (0..nw)
                     .map(|w| {
                         let bin = bin.clone();
-                        s.spawn(move || run_in_children(&bin, "graphs", g.n * 100 + g.ncons, w * chunk, ((w + 1) * chunk).min(total), stack))
+                        s.spawn(move || run_in_children(&bin, "graphs", g.n * 100 + g.ncons, from + w * chunk, (from + (w + 1) * chunk).min(to), stack))
                     })
                     .collect();
                 hs.into_iter().map(|h| h.join().unwrap()).collect()
@@ -541,7 +552,7 @@ fn run_cyclic_graphs(g: &Graphs, rep: &mut Report) {
                     let nodes = g.nodes(c.k);
                     let (_, srcs) = g.build(&nodes);
                     let sig = g.sig(&nodes, true);
-                    acc.nontrivial(&(c.k, *pname, sname));
+                    acc.nontrivial(&(g.n, g.ncons, c.k, *pname, sname));
                     match (&c.result, &c.died) {
                         (Some(r), _) => {
                             acc.class(r);
@@ -572,22 +583,29 @@ fn run_cyclic_graphs(g: &Graphs, rep: &mut Report) {
             }
         }
     }
-    rep.family_sizes.push(("cyclic-graphs".into(), acc.evaluations));
-    rep.acc.merge(acc);
 }
 
 fn run_chains(rep: &mut Report) {
-    let profs = profiles();
-    if profs.is_empty() {
+    if profiles().is_empty() {
         rep.caps.push("no child binaries available: chains not executed".into());
         return;
     }
     let mut acc = Acc::default();
     acc.family = "chains".into();
+    chains_of(&(0..NCONS_ALL).collect::<Vec<_>>(), &mut acc);
+    rep.family_sizes.push(("chains".into(), acc.evaluations));
+    rep.acc.merge(acc);
+}
+
+/// all chains (length 1..64 x 3 loop variants) through the given constructs, in child processes
+fn chains_of(constructs: &[usize], acc: &mut Acc) {
+    let profs = profiles();
     for (pname, bin) in &profs {
         for (sname, stack) in [("main-8MiB", 0usize), ("thread-2MiB", 2 << 20)] {
             let results: Vec<(usize, Vec<ChildCase>)> = std::thread::scope(|s| {
-                let hs: Vec<_> = (0..NCONS_ALL)
+                let hs: Vec<_> = constructs
+                    .iter()
+                    .cloned()
                     .map(|cons| {
                         let bin = bin.clone();
                         s.spawn(move || (cons, run_in_children(&bin, "chains", cons, 0, 192, stack)))
@@ -654,8 +672,6 @@ fn run_chains(rep: &mut Report) {
             }
         }
     }
-    rep.family_sizes.push(("chains".into(), acc.evaluations));
-    rep.acc.merge(acc);
 }
 
 // ---------------------------------------------------------------------------
@@ -748,6 +764,10 @@ pub fn replay_families(t: Tier) -> Vec<Family<'static>> {
         Family::new("acyclic-graphs", g.size(), move |i, a| g.run(i, a)),
         Family::new("acyclic-graphs-b", g4.size(), move |i, a| g4.run(i, a)),
         Family::new("json", j.vals.len() as u64, move |i, a| j.run(i, a)),
+        // child-process families: one case (graphs) / all chains through one construct
+        Family::new(&cyclic_family_name(g), g.size(), move |i, a| cyclic_range(g, i, i + 1, a)),
+        Family::new(&cyclic_family_name(g4), g4.size(), move |i, a| cyclic_range(g4, i, i + 1, a)),
+        Family::new("chains", (NCONS_ALL as u64) << 16, move |i, a| chains_of(&[(i >> 16) as usize], a)),
     ]
 }
 
